@@ -49,6 +49,8 @@ def run(ctx):
     for r in runs:
         failures += oracle_failures(r["oracle"])
         dis += diff_server(r, r["oracle"])
+        if not oracle_failures(r["oracle"]):
+            failures += spec_failures(r)
         stats += r["stats"]
     for f in failures:
         m = re.search(r";; sequence: (.*)$", f["what"])
